@@ -390,8 +390,7 @@ def spec_values(e, c, atol, rtol, eqnan, phase, passnone):
         try:
             flat(side)
         except _Ragged:
-            # np.iscomplexobj runs outside the try block (on computed too since 4bd9561): ValueError, outside the quantifier
-            raise Abstain("ragged nested list")
+            return False, "ragged nested list is not cast-able"      # since 65b8c68 on either side (was ValueError)
         except _NotArrayLike:
             pass
     try:
@@ -1270,7 +1269,17 @@ def corpus():
     cs.append(QV(L([F(1.0), F(2.0)]), A("complex", (2,), [C(1)[2:], C(2 - 5j)[2:]])))
     cs.append(QR(D([("a", B(True, np_=True))]), D([("a", B(True, np_=True))])))            # np.bool_ leaf never matched
     cs.append(QR(D([("a", B(True, np_=True))]), D([("a", B(False, np_=True))])))
-    cs.append(QV(L([L([F(1.0), F(2.0)]), L([F(3.0), F(4.0)])]), L([L([F(1.0), F(2.0)]), L([F(3.0)])])))   # ragged computed: ValueError since 4bd9561
+    # fixed 65b8c68: a ragged nest on either side raised ValueError (np.iscomplexobj outside the try block)
+    sq, rg = L([L([F(1.0), F(2.0)]), L([F(3.0), F(4.0)])]), L([L([F(1.0), F(2.0)]), L([F(3.0)])])
+    cs.append(QV(sq, rg))
+    cs.append(QV(rg, sq))
+    cs.append(QV(rg, rg, equal_phase=True))
+    cs.append(QV(rg, F(1.0), atol=0.0))
+    cs.append(QV(C(1j), rg))
+    cs.append(QV(D([("a", F(1.0))]), rg))
+    cs.append(QR(D([("a", F(1.0))]), D([("a", rg)])))
+    cs.append(QR(D([("a", F(1.0, np_=True)), ("b", I(1, np_=True))]), D([("a", rg), ("b", rg)]), forgive=["b"]))
+    cs.append(QR(D([("a", A("float", (2, 2), [F(v)[2:] for v in (1.0, 2.0, 3.0, 4.0)]))]), D([("a", rg)])))
     cs.append(QR(D([("a", B(False, np_=True)), ("b", F(1.0))]), D([("a", B(False)), ("b", F(1.0))])))
     # plain cases
     cs.append(QV(F(1.0), F(1.0000001)))
@@ -1558,7 +1567,8 @@ LEVEL_TEXT = (
     "depth and width: C19_compare_values_spec (True <-> passnone-both-None, or usable atol and both casts succeed with equal shape and "
     "all elements close by numpy's binary64 formula, or all close against the negated computed data when equal_phase; real and complex), "
     "C19_compare_values_false_spec (the False verdict, exactly), C19_compare_values_total, C19_compare_values_raise_spec / "
-    "C19_compare_values_raises_only (never a TypeError on a mismatch), C19_complex_computed_counts (complex as soon as either input is "
+    "C19_compare_values_raises_only (only an unusable atol raises; never a TypeError on a mismatch), C19_ragged_is_false (a ragged "
+    "nest on either side is a cast failure), C19_complex_computed_counts (complex as soon as either input is "
     "complex), C19_compare_spec (exact equality with phase retry), "
     "C19_compare_never_raises, C19_recursive_errors_are_failing_sites (by induction over the tree: the collected error names are "
     "exactly the failing sites below matching keys/positions), C19_recursive_spec (True <-> every failing site is covered by a forgive "
@@ -1586,6 +1596,6 @@ LEVEL_NOTE = (
     "sorted() order are not modelled (they do not influence the verdict: proved for the removal loops by a counting argument). "
     "equal_phase excuses a site when no error of the same NAME remains in the flipped run (as the code does); names are unique per "
     "site when keys have no dots, which is assumed by the segment reading only. compare_molrecs (exact mode) and pydantic .dict() "
-    "are exercised on the implementation only; relative_geoms='align' is not covered. np.iscomplexobj is evaluated outside the "
-    "try block on expected and (since 4bd9561) on computed, so a ragged nested list on either side raises ValueError: modelled, "
-    "outside the property's quantifier (the oracle abstains).")
+    "are exercised on the implementation only; relative_geoms='align' is not covered. The only exceptions compare_values can "
+    "raise are those of an unusable atol (<= 0, NaN, infinite), which is outside the property's quantifier (modelled; the oracle "
+    "abstains).")
